@@ -25,6 +25,7 @@ fn read_one(s: &mut TcpStream, rbuf: &mut Vec<u8>) -> Option<String> {
 }
 
 pub fn run(case: &str) -> String {
+    crate::util::note_current(case);
     let f: Vec<u64> = case.split(' ').map(|x| x.parse().unwrap()).collect();
     let (workers, nconn, maxreq, addfail, salt) = (f[0] as usize, f[1] as usize, f[2], f[3] as usize, f[4]);
     let _ = verif::take_log();
@@ -33,8 +34,13 @@ pub fn run(case: &str) -> String {
     let mut b = Server::builder(("127.0.0.1", port)).unwrap();
     b.thread_count(workers);
     b.fallback_route(app);
+    // the setup hook runs on the event-loop thread: when it lingers, workers finish (and close) connections whose
+    // events are already in the loop's current batch - the path on which the loop itself reclaims a record
+    let hook_us = [0u64, 0, 300, 1500, 4000][(salt % 5) as usize];
+    let stagger = salt % 3 != 0;
     { let stop = stop.clone(); b.connection_setup_hook(move |c| {
         if stop.load(Ordering::SeqCst) { return ConnectionSetupAction::StopAccepting; }
+        if hook_us > 0 { std::thread::sleep(Duration::from_micros(hook_us)); }
         match c { Ok((s, _)) => ConnectionSetupAction::Proceed(s), Err(_) => ConnectionSetupAction::Drop } }); }
     let server = b.build();
     let th = std::thread::spawn(move || { let _ = server.serve_epoll(); });
@@ -60,7 +66,11 @@ pub fn run(case: &str) -> String {
         let mut rng = Rng::new(salt.wrapping_add(ci as u64 * 7919), "epollclient");
         let nreq = rng.range(1, maxreq.max(1));
         let ending = rng.below(4); // 0 client close, 1 connection: close on last request, 2 /err, 3 /close route
+        // an eager client uses slow handlers (the response is sent first, then the handler lingers): its next request,
+        // or its close, reaches the server while the previous request is still in flight on a worker
+        let eager = rng.chance(1, 3);
         let hh = std::thread::spawn(move || -> Result<(), String> {
+            if stagger { std::thread::sleep(Duration::from_micros(rng.below(9000))); }
             let mut s = {
                 let t = Instant::now();
                 loop { match TcpStream::connect(("127.0.0.1", port)) { Ok(s) => break s, Err(_) => { if t.elapsed() > Duration::from_secs(2) { return Err("connect".to_string()); } std::thread::sleep(Duration::from_millis(1)); } } }
@@ -71,7 +81,9 @@ pub fn run(case: &str) -> String {
             for j in 0..nreq {
                 if rng.chance(1, 3) { std::thread::sleep(Duration::from_micros(rng.below(300))); }
                 let last = j + 1 == nreq;
-                let path = if last && ending == 2 { "/err".to_string() } else if last && ending == 3 { "/close".to_string() } else { format!("/all?c={ci}&r={j}") };
+                let slow = eager && rng.chance(2, 3);
+                let path = if last && ending == 2 { "/err".to_string() } else if last && ending == 3 { "/close".to_string() }
+                           else if slow { format!("/slow/{}?c={ci}&r={j}", rng.range(2, 12)) } else { format!("/all?c={ci}&r={j}") };
                 let extra = if last && ending == 1 { "Connection: close\r\n" } else { "" };
                 let body = format!("c{ci}r{j}");
                 let req = format!("POST {path} HTTP/1.1\r\nContent-Length: {}\r\n{extra}\r\n{body}", body.len());
@@ -91,11 +103,23 @@ pub fn run(case: &str) -> String {
                             let want = format!("200,{},k", hex(format!("POST /all c={ci}&r={j} {}", hex(body.as_bytes())).as_bytes()));
                             let wantc = want.replace(",k", ",c");
                             if r != want && r != wantc { return Err(format!("conn {ci}: request {j} got {r}")); }
+                        } else if path.starts_with("/slow/") {
+                            let p = path.split('?').next().unwrap();
+                            let want = format!("200,{},k", hex(format!("POST {p} c={ci}&r={j} {}", hex(b"")).as_bytes()));
+                            if r != want && r != want.replace(",k", ",c") { return Err(format!("conn {ci}: request {j} got {r}")); }
                         } else if !r.starts_with("200,") { return Err(format!("conn {ci}: {path} got {r}")); }
                     }
                 }
             }
-            if ending == 0 { drop(s); } else {
+            if ending == 0 {
+                // half of the closing clients only shut down their sending side and wait for the server's close
+                if rng.chance(1, 2) {
+                    let _ = s.shutdown(std::net::Shutdown::Write);
+                    let mut tmp = [0u8; 16];
+                    match s.read(&mut tmp) { Ok(0) => {}, Ok(_) => return Err(format!("conn {ci}: data after close")), Err(e) if e.kind() == std::io::ErrorKind::WouldBlock || e.kind() == std::io::ErrorKind::TimedOut => return Err(format!("conn {ci}: not closed by the server after the client's FIN")), Err(_) => {} }
+                }
+                drop(s);
+            } else {
                 // the server must close: wait for EOF
                 let mut tmp = [0u8; 16];
                 match s.read(&mut tmp) { Ok(0) => {}, Ok(_) => return Err(format!("conn {ci}: data after close")), Err(e) if e.kind() == std::io::ErrorKind::WouldBlock || e.kind() == std::io::ErrorKind::TimedOut => return Err(format!("conn {ci}: not closed by the server")), Err(_) => {} }
@@ -155,8 +179,10 @@ pub fn run(case: &str) -> String {
 pub fn gen(ctx: &Ctx) {
     let mut rng = Rng::new(ctx.seed, "epoll");
     let mut out = Out::new(&ctx.dir, "epoll");
-    out.rule = "real serve_epoll executions: 1..4 workers, 1..8 concurrent lock-step clients with 1..5 requests each (requests sometimes split in two segments, random sub-millisecond pauses), endings \
-                {client close, Connection: close, handler Err, response with close}, 0..2 injected EPOLL_CTL_ADD failures; every client checks that its responses arrive in order and belong to its \
+    out.rule = "real serve_epoll executions: 1..4 workers, 1..8 concurrent lock-step clients with 1..5 requests each (requests sometimes split in two segments, random sub-millisecond pauses), a third of the clients eager \
+                (slow handlers that answer first and linger 2-12 ms, so the next request or the close arrives while the previous request is in flight), endings \
+                {client close or half-close, Connection: close, handler Err, response with close}, 0..2 injected EPOLL_CTL_ADD failures; client connects staggered over 9 ms in two thirds of the runs and a setup hook that lingers 0 / 0.3 / 1.5 / 4 ms on the event-loop thread (so that \
+                connections are closed by workers while their events sit in the loop's batch: the loop-side reclamation path); every client checks that its responses arrive in order and belong to its \
                 own requests; the hook event log is replayed through the Coq transition system. Schedules are sampled. non-trivial = at least 2 connections".into();
     let n = if ctx.thorough { 1500 } else { 80 };
     for _ in 0..n {
